@@ -7,6 +7,7 @@ open TD TD.C13 TD.Proto
 Line protocol of drv_c13
 
   flt <hex of 4k bytes>       -> k entries "g=<fl> h=<fl> i=<fl>" joined by ','   (gen_floats, bytes_to_float, ISINGL)
+  decat <pos> <hex of a file> -> same as dec, through a handle positioned at <pos> before the call (model: readHandle)
   dec <hex of a file>         -> "ok <pass>|<pass>..." or "err <class>"           (model of create_bit_frame_array_from_file)
   enc <pass> <pass> ...       -> hex of the file written by the spec encoder
       pass = head;desc;ua;ub;uc;null;names;filler;range;tail;fib;nch;chandata   (hex fields, chandata channel-major)
@@ -75,6 +76,13 @@ def step (line : String) : String :=
       | .ok ps => "ok " ++ "|".intercalate (ps.map showPass)
       | .error e => showErr e
     | none => "bad-op"
+  | ["decat", pos, h] =>
+    match pos.toNat?, unhex h with
+    | some pos, some bs =>
+      match readHandle ⟨bs, pos⟩ with
+      | .ok ps => "ok " ++ "|".intercalate (ps.map showPass)
+      | .error e => showErr e
+    | _, _ => "bad-op"
   | "enc" :: ps =>
     match ps.mapM parsePass with
     | some ps => hex (Spec.encode ps)
